@@ -17,6 +17,7 @@ mod g_open;
 mod g_e2e;
 mod g_pool;
 mod g_hb;
+mod g_socks;
 mod e2e;
 
 use std::io::Write;
@@ -45,6 +46,7 @@ fn group_by_name(name: &str) -> Option<Box<dyn Group>> {
         "e2e" => Some(Box::new(g_e2e::E2eGroup)),
         "pool" => Some(Box::new(g_pool::PoolGroup)),
         "hb" => Some(Box::new(g_hb::HbGroup)),
+        "socks" => Some(Box::new(g_socks::SocksGroup)),
         _ => None,
     }
 }
